@@ -134,3 +134,55 @@ treat_int = treat(TInt, 'int order attribute', [
 
 CONTRACTS = [split_node_key, from_prefix, from_attr_none, from_attr_int, from_attr_str, treat_none, treat_int]
 LEMMAS = []
+
+
+# ------------------------------------------------------------------ FFDirector.finalize_section: every open block, link and
+# modification is stored exactly once and closed
+Ctx = TKey('Ctx')
+
+
+def setup_fin(cx):
+    eng = cx.eng
+    name_of = cx.uf('name_of', [Ctx], TStr)
+    nonempty = cx.uf('nonempty_graph', [Ctx], TBool)
+    eng.truth_hooks['Ctx'] = lambda e, v: nonempty(to_z3(v, Ctx))
+    noop = Obj('citations')
+    noop.attrs['update'] = Builtin(lambda e, x: None, 'update')
+    eng.attr_hooks[('Ctx', 'citations')] = lambda e, c: noop
+    eng.attr_hooks[('Ctx', 'name')] = lambda e, c: wrap(TStr, name_of(to_z3(c, Ctx)))
+    eng.methods[('Ctx', 'make_edges_from_interactions')] = lambda e, c: None
+    ff = cx.obj('ForceField', blocks=cx.box('blocks', TMap(TStr, Ctx)), links=cx.box('links', TSeq(Ctx)),
+                modifications=cx.box('modifications', TMap(TStr, Ctx)), name='ff')
+    nx = Obj('nx')
+    nx.attrs['is_connected'] = Builtin(lambda e, g: cx.val('connected', TBool), 'is_connected')
+    cx.spec_env['nx'] = nx
+    log = Obj('LOGGER')
+    log.attrs['error'] = Builtin(lambda e, *a, **k: None, 'error')
+    cx.spec_env['LOGGER'] = log
+    self = cx.obj('FFDirector', force_field=ff, citations=Obj('set'), current_block=cx.val('current_block', TOpt(Ctx)),
+                  current_link=cx.val('current_link', TOpt(Ctx)), current_modification=cx.val('current_modification', TOpt(Ctx)))
+    return dict(self=self, previous_section=Obj('sec'), ended_section=Obj('sec'))
+
+
+SAME_MAP = ("forall(lambda k: implies({cond}, (k in self.force_field.{m}) == (k in old(self.force_field.{m})) and "
+            "implies(k in self.force_field.{m}, self.force_field.{m}[k] == old(self.force_field.{m})[k])), TStr)")
+finalize_section = FunctionContract(
+    F, 'FFDirector.finalize_section', 'C13', setup=setup_fin, spec_env=dict(Ctx=Ctx),
+    ensures=[
+        # whatever was open is closed: it cannot be stored a second time when the next section ends
+        "self.current_block is None and self.current_link is None and self.current_modification is None",
+        # an open link is appended exactly once, in file order; the earlier links are kept
+        "len(self.force_field.links) == len(old(self.force_field.links)) + (0 if old(self.current_link) is None else 1)",
+        "forall(lambda i: implies(0 <= i and i < len(old(self.force_field.links)), self.force_field.links[i] == old(self.force_field.links)[i]))",
+        "implies(old(self.current_link) is not None, self.force_field.links[len(self.force_field.links) - 1] == old(self.current_link))",
+        # an open block / modification is stored under its name; every other entry is kept
+        "implies(old(self.current_block) is not None, name_of(old(self.current_block)) in self.force_field.blocks and "
+        "   self.force_field.blocks[name_of(old(self.current_block))] == old(self.current_block))",
+        SAME_MAP.format(m='blocks', cond="old(self.current_block) is None or k != name_of(old(self.current_block))"),
+        "implies(old(self.current_modification) is not None, name_of(old(self.current_modification)) in self.force_field.modifications and "
+        "   self.force_field.modifications[name_of(old(self.current_modification))] == old(self.current_modification))",
+        SAME_MAP.format(m='modifications', cond="old(self.current_modification) is None or k != name_of(old(self.current_modification))"),
+    ],
+    canary=[("self.current_link = None", "pass"), ("self.force_field.links.append(self.current_link)", "pass")],
+)
+CONTRACTS.append(finalize_section)
